@@ -44,6 +44,8 @@ type explorer struct {
 	c   *core.Ctx
 	box *fsbox
 	n   int64
+	// seen: coarse violation keys already minimised and reported by this worker
+	seen map[string]bool
 }
 
 func (x *explorer) do(cs Case) {
@@ -68,21 +70,20 @@ func (x *explorer) do(cs Case) {
 		x.c.Note("observation (not judged: relative on Linux): %s exposes the drive-prefixed file name %q, e.g. for %v", cs.EP, r.DriveName, cs.Entries)
 	}
 	x.floors(cs, r)
-	done := map[string]bool{}
 	for _, v := range r.Viols {
-		cl := vclass(v.Key)
-		if done[cl] {
-			continue
+		x.c.Count("violating_observations", 1)
+		if x.seen[v.Key] {
+			continue // same class and same coarse shape as a case already minimised and reported by this worker
 		}
-		done[cl] = true
-		x.c.Count("violating_cases", 1)
-		// minimise, then report what the minimised case shows for this class
+		x.seen[v.Key] = true
+		cl := vclass(v.Key)
 		m := minimise(x.box, cs, cl)
 		reported := false
 		if m.canon() != cs.canon() {
 			for _, mv := range runAny(x.box, m).Viols {
 				if vclass(mv.Key) == cl {
-					x.c.Violate(prop, mv.Key, mv.What+" (minimised from "+cs.describe()+")", m)
+					x.seen[mv.Key] = true
+					x.c.Violate(prop, mv.Key, mv.What+" (minimised from: "+cs.describe()+")", m)
 					reported = true
 					break
 				}
@@ -228,7 +229,7 @@ func run(c *core.Ctx) {
 		return
 	}
 	defer box.destroy()
-	x := &explorer{c: c, box: box}
+	x := &explorer{c: c, box: box, seen: map[string]bool{}}
 	phases := []struct {
 		name string
 		f    func(*explorer)
